@@ -149,6 +149,11 @@ class Engine(Interp):
                 ty = self.reg.type(cm.field_types[attr])
                 if isinstance(ty, TData):
                     v = SData(ty.unwrap(v, self.ctx), ty)
+                elif hasattr(ty, "coerce") and isinstance(v, (list, dict)):
+                    was_fresh = id(v) in self.fresh_ids
+                    v = ty.coerce(v, self.ctx)       # a literal stored in a field is viewed at the field's declared type
+                    if was_fresh and hasattr(v, "fresh"):
+                        v.fresh = True
             obj.fields[attr] = v
             return
         h = getattr(obj, "setattr", None)
@@ -483,6 +488,16 @@ class Engine(Interp):
                 env[p] = v
                 if v is not None:
                     self.ctx.assume(ty.invariant(v))
+            if args.vararg is not None:      # *args of symbolic length: a list of the declared element type
+                ts = c.params.get(args.vararg.arg)
+                if ts is None:
+                    env[args.vararg.arg] = ()      # undeclared *args: verified as called without extra arguments
+                else:
+                    ty = self.reg.type(ts)
+                    env[args.vararg.arg] = ty.fresh(self.ctx, args.vararg.arg)
+                    self.ctx.assume(ty.invariant(env[args.vararg.arg]))
+            if args.kwarg is not None and args.kwarg.arg not in env:
+                env[args.kwarg.arg] = {}
             for cl in c.requires:
                 src, _ = self.clause(cl)
                 self.ctx.assume(self.spec_eval(src, dict(env), None, c.namespace))
@@ -766,6 +781,13 @@ def _m_any(I, args, kwargs, node):
 
 
 def _m_type(I, args, kwargs, node):
+    v = args[0]
+    if isinstance(v, SObj):
+        rc = I.real_class(v.cls)
+        if rc is not None:
+            return rc
+    if not is_sym(v):
+        return type(v)
     return SOpaque(I.ctx.fresh("type", TOpaque().sort()), "type")
 
 
